@@ -238,7 +238,7 @@ namespace vh
         }
         void cell(uint64_t idx)
         {
-            idx &= (1u << 20) - 1;
+            idx &= (1u << 22) - 1;
             size_t w = idx >> 6;
             if (w >= cells.size())
                 cells.resize(w + 1, 0);
